@@ -172,8 +172,9 @@ class Run(object):
                     self.known[df['sig']] = (w, c + 1)
                 else:
                     self.d_fail.append((case, df, r))
-            if use_model and ctx.lean.driver is not None and hasattr(mod, 'model_line'):
-                ln = mod.model_line(case)
+            if use_model and ctx.lean.driver is not None and (hasattr(mod, 'model_line') or 'model_line' in r):
+                # a harness may return the driver command from run_impl (when it is only known after the run)
+                ln = r['model_line'] if 'model_line' in r else mod.model_line(case)
                 if ln is not None:
                     lines.append(ln)
                     idx.append(i)
@@ -285,8 +286,9 @@ def do_replay(ctx, mod, path):
     for df in (r.get('d_fail') or []):
         print('PROPERTY PREDICATE FAILS: [%s] %s' % (df['sig'], df['what']))
         bad = True
-    if ctx.lean.driver is not None and hasattr(mod, 'model_line') and mod.model_line(case) is not None:
-        ans = ctx.lean.run_driver([mod.model_line(case)])[0]
+    ln = r['model_line'] if 'model_line' in r else (mod.model_line(case) if hasattr(mod, 'model_line') else None)
+    if ctx.lean.driver is not None and ln is not None:
+        ans = ctx.lean.run_driver([ln])[0]
         mobs = mod.model_obs(case, sexp.loads(ans))
         print('model obs:', json.dumps(common.jsonable(mobs))[:2000])
         if mobs != r.get('obs'):
